@@ -8,13 +8,14 @@ PKG_API = "pkg/api"
 MUTEX_PROCS = "{" + ", ".join('"g%d"' % i for i in range(12)) + "}"
 
 
-def mutex_cfg(cfgname, rounds, timeouts, live=True):
+def mutex_cfg(cfgname, rounds, timeouts, live=True, regrants=1, renew=False):
     sfx = {"A": ("ProcsA", "MembersAB", "HandlesA", "MemOfA", "HandleOfA"),
            "A4": ("ProcsA4", "MembersAB", "HandlesA", "MemOfA", "HandleOfA4"),
            "B": ("ProcsB", "MembersAB", "HandlesB", "MemOfB", "HandleOfB"),
            "B1": ("ProcsB1", "MembersB1", "HandlesB1", "MemOfB1", "HandleOfB1")}[cfgname]
     txt = ("SPECIFICATION %s\nCONSTANTS\n  Procs <- %s\n  Members <- %s\n  Handles <- %s\n  MemOf <- %s\n  HandleOf <- %s\n"
-           "  MaxRounds = %d\n  MaxTimeouts = %d\n" % (("FairSpec" if live else "Spec",) + sfx + (rounds, timeouts)))
+           "  MaxRounds = %d\n  MaxTimeouts = %d\n  MaxRegrants = %d\n  RenewSession = %s\n"
+           % (("FairSpec" if live else "Spec",) + sfx + (rounds, timeouts, regrants, "TRUE" if renew else "FALSE")))
     txt += "INVARIANTS TypeOK Mutex NoResidue QuiescentFree\n"
     if live:
         txt += "PROPERTIES Refines Terminates GrantedUnlessTimeout\n"
@@ -29,11 +30,12 @@ MUTEX_TRACE_CFG = ("SPECIFICATION TSpec\nCONSTANTS\n  Procs = %s\nCONSTRAINT HWM
 
 def run(ctx):
     ctx.cov["rule"] = ("traces = recorded concurrent scenarios of the real cluster mutex (goroutines x handles x members on an embedded "
-                       "etcd, short time-outs, probes at quiescence) and of the real admin API (concurrent create/update/delete/get "
+                       "etcd, short time-outs, handles obtained per call, a lease re-grant after a failed keep-alive while the lock is held, probes at quiescence) and of the real admin API (concurrent create/update/delete/get "
                        "against one or two members), each validated by TLC as linearisable against the contract; behaviours = "
                        "TLC-generated sequential admin-API histories replayed on the real server; non-trivial = scenarios with "
                        "contention (a refused Lock, a 409/400/404 reply, or two members)")
-    ctx.assumptions += ["etcd and go.etcd.io/etcd/client/v3/concurrency are trusted; no lease expiry (the member lease TTL is 285 years)",
+    ctx.assumptions += ["etcd and go.etcd.io/etcd/client/v3/concurrency are trusted; no lease expires or is revoked (the member lease TTL is 285 years); a failed "
+                        "keep-alive (the member is granted a new lease) is injected through the member's etcd client",
                         "critical section = [return of Lock, invocation of Unlock] (conservative: an observed overlap is a real one)",
                         "admin API driven in-process through the server's chi router (no TCP), mock supervisor with two test-only kinds"]
     # the phases are independent: one that ends inconclusive (harness trouble, time-out) must not keep the others
@@ -51,10 +53,10 @@ def run(ctx):
 def _mc_mutex(ctx):
     # (A) one handle per member: Mutex, NoResidue, refinement of the contract and termination hold
     if ctx.quick:
-        r = ctx.tlc_mc("ClusterMutex_MC", mutex_cfg("A", 2, 2), label="mutex (A) 2 members, 3 goroutines, 2 rounds, 2 time-outs", timeout=600)
+        r = ctx.tlc_mc("ClusterMutex_MC", mutex_cfg("A", 2, 2), label="mutex (A) 2 members, 3 goroutines, 2 rounds, 2 time-outs, 1 lease re-grant", timeout=600)
     else:
-        r = ctx.tlc_mc("ClusterMutex_MC", mutex_cfg("A", 2, 2), label="mutex (A) 2 members, 3 goroutines, 2 rounds, 2 time-outs", timeout=900)
-        r = ctx.tlc_mc("ClusterMutex_MC", mutex_cfg("A4", 2, 2, live=False), label="mutex (A) 2 members, 4 goroutines, 2 rounds, 2 time-outs (safety, refinement)",
+        r = ctx.tlc_mc("ClusterMutex_MC", mutex_cfg("A", 2, 2), label="mutex (A) 2 members, 3 goroutines, 2 rounds, 2 time-outs, 1 lease re-grant", timeout=900)
+        r = ctx.tlc_mc("ClusterMutex_MC", mutex_cfg("A4", 2, 2, live=False), label="mutex (A) 2 members, 4 goroutines, 2 rounds, 2 time-outs, 1 lease re-grant (safety, refinement)",
                        timeout=1500)
     ctx.log("ClusterMutex (A): %d distinct states, ok" % r.distinct)
     # (B) two handles of one member for the same name: the model predicts a Mutex violation (lead F17,
@@ -67,15 +69,23 @@ def _mc_mutex(ctx):
         ctx.inconclusive("ClusterMutex (B) failed for an unexpected reason: %s %s" % (r.violated, r.error))
     else:
         ctx.notes.append("model (B): two handles of one member for one name violate %s (schedule: Lock(h1a) ok, Lock(h1b) ok)" % r.violated)
+    # (C) a session renewed after a lease re-grant: the model predicts a Mutex violation (the old lease's key is deleted under
+    # its holder); the real code keeps its first session - decided by the scenarios L of the trace validation
+    r = ctx.tlc_mc("ClusterMutex_MC", mutex_cfg("A", 1, 0, live=False, renew=True), label="mutex (C) session renewed after a lease re-grant", expect_ok=False,
+                   count=False, timeout=300, workers=1)
+    if r.ok or (r.violated not in ("Mutex", "Refines", "NoResidue") and "violated" not in (r.error or "")):
+        ctx.inconclusive("ClusterMutex (C): renewing the session after a lease re-grant does not violate Mutex in the model: %s %s" % (r.violated, r.error))
+    ctx.notes.append("model (C): a session renewed after a lease re-grant violates %s (schedule: Lock ok, re-grant, cluster.Mutex() by anybody on the member)" % r.violated)
 
 
 def _tv_mutex(ctx):
     na, nh, nb = (4, 2, 2) if ctx.quick else (30, 20, 4)
+    nl = 2 if ctx.quick else 8
     nsec = 1 if ctx.quick else 2
     tp = ctx.path("c18_mutex.ndjson")
     ev = None
     for attempt in range(2):
-        rc, out = ctx.go_test(PKG_CLUSTER, "^TestVerifC18Mutex$", env={"VERIF_OUT": tp, "VERIF_NA": na, "VERIF_NH": nh, "VERIF_NB": nb,
+        rc, out = ctx.go_test(PKG_CLUSTER, "^TestVerifC18Mutex$", env={"VERIF_OUT": tp, "VERIF_NA": na, "VERIF_NH": nh, "VERIF_NB": nb, "VERIF_NL": nl,
                                                                       "VERIF_SECONDARIES": nsec}, timeout=1500)
         ev = ctx.read_ndjson(tp)
         if ev and not any(e.get("ev") == "setup-failed" for e in ev) and rc == 0:
@@ -120,22 +130,29 @@ def _tv_mutex(ctx):
     ctx.log("mutex TV: %d scenarios, %d accepted, %d refused Lock calls" % (len(scen), ok, refused_total))
     if refused_total == 0:
         ctx.inconclusive("C18 mutex TV is vacuous for the second clause: no Lock call timed out in any scenario")
+    regr = sum(1 for e in ev if e.get("ev") == "fault" and e.get("what") == "re-granted")
+    ctx.cov["mutex_lease_regrants_under_a_held_lock"] = regr
+    if nl and regr == 0:
+        ctx.inconclusive("C18 mutex TV: no lease re-grant happened under a held lock in the scenarios L: %s"
+                         % jdump([e for e in ev if e.get("ev") == "fault"][:4]))
 
 
 # ------------------------------------------------------------------------------------------ admin API
 API_CLAUSES = "SuccessBumpsByOne RefusedChangesNothing CreateExisting409 UpdateOtherKind400 VersionOnlyBySuccess"
 API_CLIENTS = "{" + ", ".join('"c%d"' % i for i in range(8)) + "}"
-API_TRACE_CFG = ("SPECIFICATION TSpec\nCONSTANTS\n  Clients = %s\n  Names = {\"a\", \"b\", \"c\"}\n  Kinds = {\"K1\", \"K2\"}\n  MaxMk = 1\n"
-                 "CONSTRAINT HWM\nPOSTCONDITION Accepted\n" % API_CLIENTS)
+# object names: each one is a proper string prefix of the next (their store keys are nested prefixes)
+API_NAMES = '{"sv", "svc", "svc-canary"}'
+API_TRACE_CFG = ("SPECIFICATION TSpec\nCONSTANTS\n  Clients = %s\n  Names = %s\n  Kinds = {\"K1\", \"K2\"}\n  MaxMk = 1\n"
+                 "CONSTRAINT HWM\nPOSTCONDITION Accepted\n" % (API_CLIENTS, API_NAMES))
 # (the contract's clauses are action properties of Lin itself - model checked in _mc_api; they are not listed for the
 #  trace run because a `reset` step legitimately changes `ver` without a request)
-API_GEN_CFG = ("SPECIFICATION GSpec\nCONSTANTS\n  Clients = {\"c0\"}\n  Names = {\"a\", \"b\", \"c\"}\n  Kinds = {\"K1\", \"K2\"}\n  MaxMk = 1\n"
-               "INVARIANTS VersionCountsSuccesses\n")
+API_GEN_CFG = ("SPECIFICATION GSpec\nCONSTANTS\n  Clients = {\"c0\"}\n  Names = %s\n  Kinds = {\"K1\", \"K2\"}\n  MaxMk = 1\n"
+               "INVARIANTS VersionCountsSuccesses\n" % API_NAMES)
 
 
-def api_cfg(clients, names, maxops, lock=True):
-    return ("SPECIFICATION Spec\nCONSTANTS\n  Clients = %s\n  Names = %s\n  Kinds = {\"K1\", \"K2\"}\n  MaxOps = %d\n  UseLock = %s\n"
-            "INVARIANTS TypeOK OneInside\nPROPERTIES Refines\n" % (clients, names, maxops, "TRUE" if lock else "FALSE"))
+def api_cfg(clients, names, maxops, lock=True, delprefix=False):
+    return ("SPECIFICATION Spec\nCONSTANTS\n  Clients = %s\n  Names = %s\n  Kinds = {\"K1\", \"K2\"}\n  MaxOps = %d\n  UseLock = %s\n  DelPrefix = %s\n"
+            "INVARIANTS TypeOK OneInside\nPROPERTIES Refines\n" % (clients, names, maxops, "TRUE" if lock else "FALSE", "TRUE" if delprefix else "FALSE"))
 
 
 def _mc_api(ctx):
@@ -144,15 +161,21 @@ def _mc_api(ctx):
                    "CONSTRAINT Bounded\nPROPERTIES %s\n" % API_CLAUSES, label="admin-API contract clauses, 2 clients", timeout=600)
     # the implementation-shaped layer refines it (every interleaving of the etcd operations)
     if ctx.quick:
-        r = ctx.tlc_mc("AdminApi", api_cfg("{1, 2}", '{"a"}', 2), label="admin API impl refines contract: 2 clients x 2 requests, 1 name", timeout=900)
+        r = ctx.tlc_mc("AdminApi", api_cfg("{1, 2}", '{"svc"}', 2), label="admin API impl refines contract: 2 clients x 2 requests, 1 name", timeout=900)
     else:
-        r = ctx.tlc_mc("AdminApi", api_cfg("{1, 2}", '{"a", "b"}', 2), label="admin API impl refines contract: 2 clients x 2 requests, 2 names", timeout=900)
-        r = ctx.tlc_mc("AdminApi", api_cfg("{1, 2, 3}", '{"a"}', 2), label="admin API impl refines contract: 3 clients x 2 requests, 1 name", timeout=2400)
+        r = ctx.tlc_mc("AdminApi", api_cfg("{1, 2}", '{"sv", "svc"}', 2), label="admin API impl refines contract: 2 clients x 2 requests, 2 names", timeout=900)
+        r = ctx.tlc_mc("AdminApi", api_cfg("{1, 2, 3}", '{"svc"}', 2), label="admin API impl refines contract: 3 clients x 2 requests, 1 name", timeout=2400)
     ctx.log("AdminApi refines AdminApiContract: %d distinct states" % r.distinct)
     # non-vacuity: without the lock the refinement fails
-    r = ctx.tlc_mc("AdminApi", api_cfg("{1, 2}", '{"a"}', 1, lock=False), label="admin API without the lock", expect_ok=False, count=False, timeout=300, workers=2)
+    r = ctx.tlc_mc("AdminApi", api_cfg("{1, 2}", '{"svc"}', 1, lock=False), label="admin API without the lock", expect_ok=False, count=False, timeout=300, workers=2)
     if r.ok or "violated" not in (r.error or ""):
         ctx.inconclusive("AdminApi: the refinement check is vacuous (it also passes without the lock): %s" % r.error)
+    # non-vacuity for nested names: a delete that reaches the keys extending the object's key is not a refinement
+    r = ctx.tlc_mc("AdminApi", api_cfg("{1}", '{"sv", "svc"}', 3, delprefix=True), label="admin API deleting by key prefix (names sv, svc)", expect_ok=False,
+                   count=False, timeout=300, workers=2)
+    if r.ok or "violated" not in (r.error or ""):
+        ctx.inconclusive("AdminApi: the refinement check does not see collateral deletions among nested names: %s" % r.error)
+    ctx.notes.append("model: deleting an object by key prefix (names sv < svc) violates the refinement (create sv, create svc, delete sv)")
 
 
 def _mbt_api(ctx):
